@@ -22,6 +22,7 @@ import time
 from pathlib import Path
 
 SUT = '''
+import logging
 import time
 
 def spin(n: int) -> int:
@@ -77,6 +78,16 @@ def spin_eq(a, b) -> int:
         if a == b:
             hits += 1
 
+def mute_block(t: float) -> int:
+    logging.disable(logging.ERROR)
+    while True:
+        time.sleep(t)
+
+def logs_enabled() -> int:
+    if logging.getLogger("c32sut").isEnabledFor(logging.ERROR):
+        return 1
+    return 0
+
 def busy(ms: int) -> int:
     end = time.monotonic() + ms / 1000.0
     k = 0
@@ -94,12 +105,16 @@ TERMINATING = {
     "other_short": ["var_0 = other('zz')", "var_1 = quick(2)"],
     "busy": ["var_0 = busy(300)"],
     "typeerr": ["var_0 = quick('s')"],
+    # branches on process-global logging state that an abandoned execution may have changed
+    "logcheck": ["var_0 = logs_enabled()"],
 }
 LOOPING = {
     "spin": ["var_0 = spin(1)"],
     "spin2": ["var_0 = quick(9)", "var_1 = spin(2)"],
     "spin_sleep": ["var_0 = spin_sleep(3)"],
     "nap": ["var_0 = nap_then_branch(%NAP%)"],
+    # calls logging.disable(ERROR) and then blocks in uninstrumented code for good
+    "mute_block": ["var_0 = mute_block(30.0)"],
     # abandoned INSIDE a predicate callback: the operands' __eq__ sleeps longer than timeout + grace join
     "spin_eq": ["var_0 = Slow(%EQ%)", "var_1 = Slow(%EQ%)", "var_2 = spin_eq(var_0, var_1)"],
 }
@@ -113,7 +128,11 @@ def main() -> None:
     os.environ["PYNGUIN_DANGER_AWARE"] = "1"
     import logging
 
-    logging.disable(logging.CRITICAL)
+    # silence pynguin's own loggers WITHOUT logging.disable: the process-wide disable level is what the
+    # mute_block / logcheck tests are about
+    logging.getLogger("pynguin").setLevel(logging.CRITICAL + 1)
+    logging.getLogger("pynguin").propagate = False
+    logging.getLogger("pynguin").addHandler(logging.NullHandler())
     import libcst as cst
 
     import pynguin.configuration as config
